@@ -268,6 +268,19 @@ func enumerateSites(p *prover.F, fn *ssa.Function) []site {
 	return out
 }
 
+// writerCounterNonNeg: loads of packet.Writer.written (C20-COUNT: the counter equals the number of octets appended).
+func writerCounterNonNeg(v ssa.Value) bool {
+	u, ok := v.(*ssa.UnOp)
+	if !ok || u.Op != token.MUL {
+		return false
+	}
+	_, f, ok := fieldOfAddr(u.X)
+	if !ok || f.Name() != "written" || f.Pkg() == nil {
+		return false
+	}
+	return strings.HasSuffix(f.Pkg().Path(), "/packet")
+}
+
 func isIntType(t types.Type) bool {
 	b, ok := t.Underlying().(*types.Basic)
 	return ok && b.Info()&types.IsInteger != 0
@@ -282,6 +295,7 @@ func checkSites(c *core.Ctx, rule string, fns []*ssa.Function) {
 		}
 		p := prover.New(fn)
 		p.CallFacts = availabilityFacts(c, p)
+		p.NonNeg = writerCounterNonNeg
 		sites := enumerateSites(p, fn)
 		c.Count("functions_scanned", 1)
 		c.Count("panic_capable_sites", len(sites))
